@@ -331,6 +331,9 @@ func (c *Ctx) c15WhoRemovesLabels() {
 	n, bad := 0, false
 	c.eachFuncDecl(func(fd *ast.FuncDecl, fn *types.Func) {
 		name := strings.TrimPrefix(pw.FuncName(fn), "cache.")
+		if c.isNewAPI(fn) {
+			return // an entry point that is not part of the reference API (e.g. an explicit RemoveCache): what it does when called is its own specification
+		}
 		ast.Inspect(fd.Body, func(x ast.Node) bool {
 			call, ok := x.(*ast.CallExpr)
 			if !ok {
@@ -976,6 +979,28 @@ func (c *Ctx) c15Labelling() {
 			for _, ev := range g.events {
 				if ev.Kind == pw.EvCall && ev.Role == "Repo:InvalidationIndex.invalidateByLabels" {
 					nCall++
+					// the label map and the deleters are found by type (the helper may take further parameters, e.g. the name for a hook)
+					if len(ev.Args) >= 3 {
+						var mArg, dArg *pw.Val
+						for _, a := range ev.Args[1:] {
+							if a == nil || a.Type == nil {
+								continue
+							}
+							switch a.Type.Underlying().(type) {
+							case *types.Map:
+								if mArg == nil {
+									mArg = a
+								}
+							case *types.Slice:
+								if dArg == nil && strings.Contains(types.TypeString(a.Type, nil), "Deleter") {
+									dArg = a
+								}
+							}
+						}
+						if mArg != nil && dArg != nil {
+							ev = &pw.Event{Kind: ev.Kind, Role: ev.Role, Pos: ev.Pos, Args: []*pw.Val{ev.Args[0], mArg, dArg}, Results: ev.Results}
+						}
+					}
 					okArgs := len(ev.Args) >= 3 && ev.Args[1].Kind == pw.KRangeVal && ev.Args[2].Kind == pw.KMapVal && ev.Args[2].Ev != nil && ev.Args[2].Ev.Key != nil && ev.Args[2].Ev.Key.Kind == pw.KRangeKey
 					if okArgs && (snapDel != nil && ev.Args[2].Ev.Recv != snapDel) {
 						okArgs = false
